@@ -16,6 +16,7 @@ import (
 func init() {
 	verifrt.Register("H_C01_CorruptRestart", H_C01_CorruptRestart)
 	verifrt.Register("H_C01_SupersededLive", H_C01_SupersededLive)
+	verifrt.Register("H_C01_Overtaken", H_C01_Overtaken)
 }
 
 // A file arrives completely but its bytes are not the announced version (a
@@ -142,4 +143,60 @@ func H_C01_SupersededLive(v *verifrt.T) {
 		}
 	}
 	v.Reach("released")
+}
+
+// A complete newer version of a name arrives while the complete older version
+// is still waiting in the validation queue (no goroutine of the stage has run
+// in between — the engine's scheduler lets the harness send both before the
+// validators start): the staged body is the newer version's when the older
+// entry is validated. Whatever is delivered is byte-identical to the version
+// its log record states; and once the sender has re-sent what was reported as
+// failed or unknown, the newer version is delivered.
+func H_C01_Overtaken(v *verifrt.T) {
+	size1, size2 := v.Int64("size1"), v.Int64("size2")
+	v.Assume(size1 >= 1)
+	v.Assume(size1 <= 4096)
+	v.Assume(size2 >= 1)
+	v.Assume(size2 <= 4096)
+	h1 := v.Version("v1", size1)
+	h2 := v.Version("v2", size2)
+	e := newEnv(v)
+	fa := filepath.Join(e.final, "a")
+	v.Assert(e.sendPart("a", "", h1, size1, 0, size1, "v1") == nil, "part received")
+	// (no Quiesce: the validators have not looked at version 1 yet)
+	v.Assert(e.sendPart("a", "", h2, size2, 0, size2, "v2") == nil, "part received")
+	v.Quiesce()
+	check := func() {
+		if !v.Exists(fa) {
+			return
+		}
+		var last *vRecord
+		for k := len(e.logger.records) - 1; k >= 0; k-- {
+			if e.logger.records[k].name == "a" {
+				last = &e.logger.records[k]
+				break
+			}
+		}
+		v.Assert(last != nil, "C01 a delivered file has a record in the receive log")
+		if last != nil {
+			tag := "v1"
+			if last.hash == h2 {
+				tag = "v2"
+			}
+			v.Assert(v.FileIs(fa, tag), "C01 the MD5 of a delivered file equals the hash written for it in the receive log")
+			v.Assert(last.size == size1 && tag == "v1" || last.size == size2 && tag == "v2", "C01 the size written to the receive log is the delivered version's")
+		}
+	}
+	check()
+	v.Reach("validated")
+	// the sender polls version 2 and transmits it again unless it is confirmed
+	st := e.s.GetFileStatus("a", v.Now())
+	if st != sts.ConfirmPassed && st != sts.ConfirmWaiting {
+		osRemoveFile(fa)
+		v.Assert(e.sendPart("a", "", h2, size2, 0, size2, "v2") == nil, "C01 a version reported as failed or unknown can be transmitted again")
+		v.Quiesce()
+		check()
+		v.Reach("re-sent")
+	}
+	v.Assert(v.FileIs(fa, "v2"), "C01/C03 the newer version is what ends up delivered")
 }
